@@ -71,7 +71,7 @@ def shards(tier, seed):
 
         fmts = ["data:" + n for n in D.FORMATS]
         custom = ["ExtendedCopy4+id", "ExtendedCopy5+id", "PersistentReserveOut", "ModeSelect6", "ModeSelect10", "Inquiry", "ReadElementStatus"]
-        dpairs = [(a, b) for a in custom for b in fmts] + [(b, a) for a in custom for b in fmts] + [(a, b) for a in fmts for b in fmts if a <= b]
+        dpairs = [(a, b) for a in custom for b in fmts] + [(b, a) for a in custom for b in fmts] + [(a + "#1", b + "#2") for a in fmts for b in fmts if a <= b]
         for i in range(16):
             out.append({"id": "sched-data-%d" % i, "kind": "sched1", "pairs": dpairs[i::16], "maxpoints": 400})
         out.append({"id": "sched2-data", "kind": "sched2", "pairs": [("ExtendedCopy5+id", "ExtendedCopy5+id"), ("ExtendedCopy5+id", "data:inquiry.vpd83")], "stride": 6})
@@ -142,18 +142,26 @@ def layout_of(c):
 DATA_PAIRS = [("ExtendedCopy5+id", "data:inquiry.vpd83"), ("data:inquiry.vpd83", "ExtendedCopy5+id"), ("ExtendedCopy4+id", "data:inquiry.vpd83"),
               ("data:inquiry.vpd83", "ExtendedCopy4+id"), ("PersistentReserveOut", "data:prin.readfullstatus"), ("data:prin.readfullstatus", "PersistentReserveOut"),
               ("ModeSelect10", "data:modesense10"), ("ModeSelect6", "data:modesense6"), ("data:inquiry.vpd83", "data:inquiry.vpd83"),
-              ("data:readelementstatus", "data:reporttargetportgroups"), ("data:inquiry.standard", "data:inquiry.vpd86"), ("Inquiry", "data:inquiry.vpd83")]
+              ("data:readelementstatus", "data:reporttargetportgroups"), ("data:inquiry.standard", "data:inquiry.vpd86"), ("Inquiry", "data:inquiry.vpd83"),
+              ("data:readelementstatus#1", "data:readelementstatus#2"), ("data:reporttargetportgroups#1", "data:reporttargetportgroups#2"),
+              ("data:inquiry.vpd83#1", "data:inquiry.vpd83#2"), ("data:modesense10#1", "data:modesense10#2")]
 
 
 def data_program(fname):
-    """a thread that works on device data of its own: decode a fixed well-formed response, build it again"""
+    """a thread that works on device data of its own: decode a fixed well-formed response, build it again ("fmt#k": the k-th
+    different response of that format, so that two threads of one pair work on different data)"""
     import copy
 
     from vmon.spec import datain as D
 
+    fname, _sep, salt = fname.partition("#")
     f = D.FORMATS[fname]
-    rng = random.Random("c09data:%s" % fname)
-    v = f.gen(rng, ("count", 3) if fname in ("inquiry.vpd83", "prin.readfullstatus") else "rand")
+    rng = random.Random("c09data:%s:%s" % (fname, salt))
+    if salt:
+        # the richest of a few responses: an empty list gives the other thread nothing to disturb
+        v = max((f.gen(rng, ("count", 3) if fname in ("inquiry.vpd83", "prin.readfullstatus") else "rand") for _i in range(6)), key=lambda x: len(f.encode(x)))
+    else:
+        v = f.gen(rng, ("count", 3) if fname in ("inquiry.vpd83", "prin.readfullstatus") else "rand")
     b = bytes(f.encode(v))
     kw = f.decode_kwargs(v)
 
@@ -414,6 +422,27 @@ def alias_checks(ctx, S):
                     ctx.fail("C09:reuse.buffers_aliased", "%s: writing to one command's dataout changed another's" % name, {"cmd": name})
     retyped_segments(ctx, S, rng)
     retargeted_opcode_objects(ctx, S, rng)
+    # "repeating a call with equal inputs yields equal bytes": every command class, built three times from equal arguments
+    # (also unusual but legal combinations: a 28-bit ATA command carrying 48-bit values)
+    for c in S.COMMANDS.values():
+        if c.custom:
+            continue
+        for i in range(40):
+            a = harness.random_args(c, rng, cap=2048)
+            if c.xfer == "ata" and i % 2:
+                a["extend"] = 0
+            ctx.case(("thrice", c.name, harness.args_repr(a)), True)
+            outs = []
+            for _k in range(3):
+                try:
+                    cmd = harness.construct(c, c.sets[0], dict(a))
+                    outs.append((bytes(cmd.cdb), len(cmd.datain), bytes(cmd.dataout)))
+                except Exception as e:  # noqa: BLE001
+                    outs.append(("raises", type(e).__name__))
+            ctx.count("commands_built_three_times")
+            if len(set(outs)) != 1:
+                ctx.fail("C09:repeated_construction_differs", "%s built three times from equal arguments: %s" % (c.name, [o[0].hex() if isinstance(o[0], bytes) else o for o in outs]),
+                         {"cmd": c.name, "args": a})
     # facade defaults (mutable default arguments)
     dev = harness.Recorder(E.spc)
     s = harness.make_facade(dev)
@@ -434,8 +463,18 @@ def alias_checks(ctx, S):
     from vmon.props.c06 import scribble_all
 
     fmts = list(D.FORMATS.values())
+    # one fixed rich response per format (with text fields where the format has any), decoded before anything else: decoded
+    # again after every hostile decode of that format it has to give what it gave then
+    probes = {}
     for f in fmts:
-        for _ in range(12):
+        prng = random.Random("c09probe:%s" % f.name)
+        pv = max((f.gen(prng) for _i in range(40)), key=lambda x: repr(x).count("iscsi_name") * 100000 + len(f.encode(x)))
+        try:
+            probes[f.name] = (pv, bytes(f.encode(pv)), repr(f.lib_decode(f.encode(pv), pv)))
+        except Exception:  # noqa: BLE001
+            ctx.count("probe_decode_raised")
+    for f in fmts:
+        for _ in range(200 if f.name in ("prin.readfullstatus", "reportpriority") else 12):
             v1 = f.gen(rng)
             b1 = f.encode(v1)
             g = f if rng.random() < 0.7 else rng.choice(fmts)
@@ -446,13 +485,38 @@ def alias_checks(ctx, S):
                 was = repr(r1)
                 r2 = g.lib_decode(g.encode(v2), v2)
                 mid = repr(r1)
+                # ... and responses cut off anywhere (a transfer that ended early), whatever decoding them raises
+                b2 = bytes(g.encode(v2))
+                cuts = [rng.randrange(len(b2) + 1) for _cut in range(3)]
+                # also in the middle of a character of a text field (UTF-8 continuation bytes)
+                mid_char = [i for i in range(1, len(b2)) if 0x80 <= b2[i] <= 0xBF and b2[i - 1] >= 0xC0]
+                cuts += rng.sample(mid_char, min(12, len(mid_char)))
+                for cut in cuts:
+                    try:
+                        g.lib_decode(b2[:cut], v2)
+                    except Exception:  # noqa: BLE001
+                        pass
+                ctx.count("truncated_decodes_in_between", len(cuts))
                 scribble_all(r2)
                 mid2 = repr(r1)
-                again = repr(f.lib_decode(b1, v1))
             except Exception:  # noqa: BLE001
                 ctx.count("held_result_decode_raised")
                 continue
+            try:
+                again = repr(f.lib_decode(b1, v1))
+            except Exception as e:  # noqa: BLE001
+                again = "raises %s" % type(e).__name__
             ctx.count("held_results_rechecked")
+            if g.name in probes:
+                pv, pb, pwas = probes[g.name]
+                try:
+                    pnow = repr(g.lib_decode(pb, pv))
+                except Exception as e:  # noqa: BLE001
+                    pnow = "raises %s" % type(e).__name__
+                ctx.count("probe_responses_decoded_again")
+                if pnow != pwas:
+                    ctx.fail("C09:decode.depends_on_earlier_decode.%s" % g.name, "a fixed %s response decodes differently after other (also cut off) %s responses were decoded: %s" % (g.name, g.name, pnow[:200]),
+                             {"format": g.name, "response": pb})
             if mid != was or mid2 != was or repr(r1) != was:
                 ctx.fail("C09:decode.earlier_result_changed.%s" % f.name, "the result of decoding a %s response changed when a %s response was decoded (and edited) afterwards" % (f.name, g.name),
                          {"format": f.name, "then": g.name, "response": bytes(b1)})
